@@ -10,8 +10,14 @@ change (parsed `sequence.json` and every stray temp file), and the in-memory sta
 queries (`sender_sequence_number`, `sequence_number_persisted`, chunk size,
 `replay_window_persisted`, window).
 
-Oracle (independent reading of the property over the observations): no sequence number /
-(key, nonce) pair twice across all lifetimes; strictly increasing within a lifetime; nothing at
+Responses: `A<n>` protects a response / notification / the 4.01 + Echo challenge with the newest request
+identifiers of request `n` (model: `PersistAead.gstep`); every event's token carries the (key, nonce)
+pairs the implementation handed to the transparent AEAD under the sender key in that event, decoded
+with the harness's own RFC 8613 section 5.2 reader into `o<n>` (own number) / `p<n>` (the peer's
+partial IV, i.e. a re-used request nonce), and is compared with the model's ghost log.
+
+Oracle (independent reading of the property over the observations): no sequence number twice and no
+(key, nonce) pair handed to the AEAD twice across all lifetimes - runs before a crash included; strictly increasing within a lifetime; nothing at
 or above 2^40-1 and a refusal changes nothing; after an unclean stop of a lifetime that accepted
 a request from its window the next window is uninitialised; no request number accepted again
 without an Echo recovery in between; after a clean stop every number accepted in that lifetime
@@ -27,8 +33,13 @@ from common import compare, load_corpus, HarnessError
 import c13_fs
 from c13_fs import Crash, Effects
 
-RULE = ("Histories of load/protect/arrival/clean-shutdown/kill events on the real "
-        "FilesystemSecurityContext; corpus first. Boundary table (always, in full): for every chunk "
+RULE = ("Histories of load/protect/arrival/response/clean-shutdown/kill events on the real "
+        "FilesystemSecurityContext; corpus first. Responses (table, always): requests accepted and answered once and "
+        "twice, then every kind of stop (kill, crash inside a protect / a response / an arrival's store, clean stop, "
+        "aborted clean stop), reload, THE SAME requests replayed before any Echo exchange completes, their Echo "
+        "challenges, completion of the Echo exchange, responses, a second crash and replays again - starting 0, 9 "
+        "and 10 numbers into the first chunk; challenge and response stores at a chunk boundary dying after each "
+        "effect; responses without request identifiers / without a process / at exhaustion. Boundary table (always, in full): for every chunk "
         "boundary 0/10/30/70/150/310 of the default configuration and every boundary of the small "
         "configurations (1,4) (2,16) (3,10) (5,5) (1,1), the store at the boundary dies after each of "
         "its 0..5 effects (plus a kill and no crash) and is followed by reload, protects, clean "
@@ -38,12 +49,19 @@ RULE = ("Histories of load/protect/arrival/clean-shutdown/kill events on the rea
         "clean-shutdown store; repeated crash/reload cycles; the null-window corner; chunk size 0 "
         "(assert); exhaustion from 2^40-1-k, k=0..12; lock; window sizes 1/2/8/33. Random: "
         "state-aware event lists (numbers around the live window, replays of accepted numbers, "
-        "current/stale/no echo, crashes with probability ~8 %); a quarter of them is the malformed "
+        "current/stale/no echo, responses to the request just received or an older one - once or twice, "
+        "crashes with probability ~8 %); a quarter of them is the malformed "
         "stream (operations without a process, second loads, forged tags). A case is non-trivial "
         "when it has at least one store and one reload after a stop; distinct by full event list.")
 TRUSTED = ["harness shims for cbor2/cryptography/filelock (lock = lock-file existence), the transparent AEAD "
            "(harness/oscore_util.py) and the effect interception proxies (harness/c13_fs.py)"]
-ASSUMPTIONS = ["process-crash file semantics: os.replace is atomic and a completed os.replace survives the crash; "
+ASSUMPTIONS = ["the peer's sender sequence numbers increase and it cannot know an Echo value before it was issued: a "
+               "request accepted through Echo recovery carries a number above every number accepted before "
+               "(hypothesis EchoFresh of C13_aead_nonces_never_repeat; histories of the random stream that break it "
+               "are not judged for re-used REQUEST nonces, own numbers are judged unconditionally)",
+               "sender and recipient id differ, so nonces built from own numbers and from the peer's partial IVs "
+               "never coincide (nonce construction is C11's subject)",
+               "process-crash file semantics: os.replace is atomic and a completed os.replace survives the crash; "
                "power failure (fsync ordering) and I/O errors returned by _store are outside the quantifier",
                "one process per context directory (the lock file); contexts are never copied/rolled back",
                "window size >= 1; sequence.json is only written by the implementation (no tampering)"]
@@ -154,8 +172,10 @@ class Runner:
         from aiocoap import Message, GET
         oscore = self.oscore
         self._write_settings(case, basedir)
-        client = self.HC(b"\x02", b"\x01", secret=SECRET.encode("ascii"), alg=self.alg)
+        client = self.HC.Peer(b"\x02", b"\x01", secret=SECRET.encode("ascii"), alg=self.alg)
         ctx = None
+        rids = {}                    # partial IV of a request -> its newest request identifiers (this lifetime)
+        skey = civ = None            # sender key / common IV of the context (the same in every lifetime)
         lifetime = 0
         tokens, log = [], []
         numbers = set()              # every request number that ever arrived
@@ -169,12 +189,21 @@ class Runner:
             if kind == "M":
                 tokens.append(self._mem(ctx))
                 continue
+            if kind == "W":
+                # the operator edits settings.json (used by C12's restart histories only: the `window` setting
+                # takes effect at the next load; the persistence model has one window size per history)
+                self._write_settings(dict(case, window=int(ev[1:]), disk=None), basedir)
+                tokens.append("w")
+                log.append({"ev": "W", "lifetime": lifetime, "res": "w", "window": int(ev[1:])})
+                continue
             if kind == "L":
                 fx.echo = int(ev[1:]).to_bytes(8, "big")
                 if ctx is None:
                     lifetime += 1
                     ctx = self._construct(case, basedir)
                     res = "l"
+                    rids = {}
+                    skey, civ = bytes(ctx.sender_key), bytes(ctx.common_iv)
                     w = ctx.recipient_replay_window
                     obs.update(lifetime=lifetime, win_init=w.is_initialized(),
                                ssn=ctx.sender_sequence_number,
@@ -194,13 +223,16 @@ class Runner:
             elif kind == "K":
                 self._neutralise(ctx, basedir)
                 ctx = None
+                rids = {}
                 res = "z"
                 obs["stop"] = "unclean"
             else:
                 fx.begin(crash)
                 nlog = len(self.TA.log)
                 try:
-                    if kind == "P":
+                    entry = rids.get(int(ev[1:])) if kind == "A" else None
+                    if kind == "P" or (kind == "A" and entry is None):
+                        # (a response for a number without request identifiers is an own request)
                         before = self._mem(ctx)
                         msg = Message(code=GET, uri="coap://example.org/x")
                         try:
@@ -218,8 +250,32 @@ class Runner:
                                 raise HarnessError("partial IV of the option and of the request id differ")
                             res = f"i{n}"
                             obs.update(issued=n, pivlen=len(piv))
-                        obs["nonces"] = [(e[3], e[4]) for e in self.TA.log[nlog:]
-                                         if e[0] == "enc" and e[3] == ctx.sender_key]
+                    elif kind == "A":
+                        # a response / notification to an accepted request, or the 4.01 + Echo challenge the
+                        # server sends for a request it refused with ReplayErrorWithEcho
+                        before = self._mem(ctx)
+                        what, thing = entry
+                        obs["answers"] = int(ev[1:])
+                        try:
+                            if what == "echo":
+                                prot = thing.to_message()
+                            else:
+                                from aiocoap import CONTENT
+                                prot, _ = ctx.protect(Message(code=CONTENT, payload=b"r"), thing)
+                        except oscore.ContextUnavailable:
+                            res = "x"
+                            obs["mem_changed"] = before != self._mem(ctx)
+                        except AssertionError:
+                            res = "a"
+                        else:
+                            opt = prot.opt.oscore or b""
+                            piv = opt[1:1 + (opt[0] & 7)] if opt else b""
+                            if piv:
+                                n = int.from_bytes(piv, "big")
+                                res = f"i{n}"
+                                obs.update(issued=n, pivlen=len(piv))
+                            else:
+                                res = "r%d" % int(ev[1:])
                     elif kind == "R":
                         seq, auth, echo = ev[1:].split(":")
                         seq, auth = int(seq), auth == "1"
@@ -230,26 +286,37 @@ class Runner:
                         obs.update(seq=seq, auth=auth, init_before=init_before,
                                    echo_ok=(echo is not None and echo == ctx.echo_recovery))
                         try:
-                            ctx.unprotect(inc)
+                            _, rid = ctx.unprotect(inc)
                             res = "As" if init_before else "Ae"
-                        except oscore.ReplayErrorWithEcho:
+                            rids[seq] = ("resp", rid)
+                        except oscore.ReplayErrorWithEcho as e:
                             res = "E"
+                            rids[seq] = ("echo", e)
                         except oscore.ReplayError:
                             res = "R"
                         except oscore.ProtectionInvalid:
                             res = "P"
+                        except Exception as e:           # anything else is an observation the oracle judges
+                            res = "X"
+                            obs["exc"] = type(e).__name__
                     elif kind == "S":
                         ctx.__del__()
                         ctx = None
+                        rids = {}
                         res = "s"
                         obs["stop"] = "clean"
                     else:
                         raise HarnessError(f"unknown event {tok!r}")
                 except Crash:
                     res = "d"
+                # every (key, nonce) pair the implementation handed to the AEAD under the sender key in this event
+                used = [(e[3], e[4]) for e in self.TA.log[nlog:] if e[0] == "enc" and e[3] == skey]
+                obs["nonces"] = used
+                obs["used"] = [self._nonce_name(civ, nonce) for _, nonce in used]
                 if crash is not None or res == "d":
                     # the process dies inside the operation (after `crash` effects, or at its end
                     # if it has fewer): its result is never delivered
+                    rids = {}
                     if ctx is not None:
                         self._neutralise(ctx, basedir)
                         ctx = None
@@ -267,6 +334,7 @@ class Runner:
                 fx.end()
                 obs["effects"] = list(fx.oplog)
             obs["res"] = res
+            res = res + "".join("~" + u for u in obs.get("used", ()))
             stamp = (fx.total, c13_fs.dir_stamp(basedir))
             if stamp != prev_stamp:
                 prev_stamp = stamp
@@ -279,6 +347,25 @@ class Runner:
         if ctx is not None:
             self._neutralise(ctx, basedir)
         return tokens, log
+
+    @staticmethod
+    def _nonce_name(common_iv, nonce):
+        """RFC 8613 section 5.2 read backwards: nonce = common IV xor (len(id) | id padded to len-6 | partial IV
+        padded to 5); `o<n>` for the context's own id 01, `p<n>` for the peer's id 02"""
+        x = bytes(a ^ b for a, b in zip(nonce, common_iv))
+        if len(nonce) != len(common_iv) or len(x) < 7:
+            return "?" + nonce.hex()
+        idlen = x[0]
+        idfield = x[1:len(x) - 5]
+        if idlen > len(idfield) or any(idfield[:len(idfield) - idlen]):
+            return "?" + nonce.hex()
+        ident = idfield[len(idfield) - idlen:]
+        piv = int.from_bytes(x[-5:], "big")
+        if ident == b"\x01":
+            return "o%d" % piv
+        if ident == b"\x02":
+            return "p%d" % piv
+        return "?" + nonce.hex()
 
     def _request(self, client, seq, echo, forge):
         from aiocoap import Message, GET
@@ -300,7 +387,9 @@ class Runner:
 def oracle(log):
     """→ (verdict, key) — ("", None) when the property holds on this history."""
     issued_all = {}
-    nonces = set()
+    nonces = {}
+    ever_accepted = set()        # every request number accepted so far, all lifetimes
+    stale_echo = False           # the peer broke the freshness assumption (see C13_aead_nonces_never_repeat)
     last_in_life = {}
     seen = set()                 # accepted and not yet superseded by an Echo recovery
     life_strike = False          # this lifetime accepted a request from an initialised window
@@ -335,10 +424,17 @@ def oracle(log):
             if o["lifetime"] in last_in_life and last_in_life[o["lifetime"]] >= n:
                 return f"sequence numbers not increasing within a lifetime ({last_in_life[o['lifetime']]} then {n})", "not-increasing"
             last_in_life[o["lifetime"]] = n
-        for kn in o.get("nonces", ()):
+        for kn, name in zip(o.get("nonces", ()), o.get("used", ())):
+            if kn in nonces and name[0] == "p" and stale_echo:
+                # outside the assumption about the PEER (it completed an Echo exchange with a number that is not
+                # above everything it had used before, i.e. it re-uses its own sequence numbers): not judged
+                continue
             if kn in nonces:
-                return f"AEAD nonce {kn[1].hex()} used twice under the sender key", "aead-nonce-reuse"
-            nonces.add(kn)
+                what = {"o": "own sequence number ", "p": "partial IV of the peer's request "}.get(name[0], "") + name[1:]
+                return (f"AEAD nonce {kn[1].hex()} ({what}) handed to the AEAD twice under the sender key "
+                        f"(first in lifetime {nonces[kn]}, again in lifetime {o['lifetime']}, event {o['ev']})"), \
+                    "aead-nonce-reuse"
+            nonces[kn] = o["lifetime"]
         if res == "x" and (o.get("mem_changed") or o.get("effects")):
             return "refusing at exhaustion changed the context state", "exhaustion-state-changed"
         if ev == "R" and res in ("As", "Ae"):
@@ -349,6 +445,8 @@ def oracle(log):
                 if not o["echo_ok"]:
                     return (f"request {n} accepted on an uninitialised window without the echo value "
                             "of this process"), "accepted-without-echo"
+                if ever_accepted and n <= max(ever_accepted):
+                    stale_echo = True
                 seen = {n}
             else:
                 if n in seen:
@@ -357,6 +455,7 @@ def oracle(log):
                 seen.add(n)
                 life_strike = True
             life_accepted.append(n)
+            ever_accepted.add(n)
     return "", None
 
 
@@ -439,6 +538,29 @@ def boundary_cases(env):
         add(["L100", "R5:1:-", "K", "L101", "M", "S", "L102", "M", "R9:1:-", "R9:1:102", "M"] + P(10)
             + after("P", cr) + ["M", "L103", "M", "R9:1:-", "R5:1:-", "R9:1:103", "R12:1:-", "M", "K",
                                 "L104", "R12:1:-", "M"], "null-window")
+    # responses, notifications and Echo challenges: which (key, nonce) pairs reach the AEAD.  Request 5 (and 6) accepted
+    # and answered (the response re-uses the request's nonce; a second response takes an own number), the process
+    # stops in every way, the next one gets the SAME requests again before any Echo exchange has completed: it must
+    # challenge them with an own number; then the Echo exchange completes and its request is answered
+    for stop in (["K"], ["P!0"], ["A5!0"], ["A6!2"], ["S"], ["R7:1:-!1"], ["R7:1:-", "A7", "K"], ["S!2"]):
+        for pre in (0, 9, 10):
+            add(["L100"] + P(pre) + ["R5:1:-", "A5", "R6:1:-", "A6", "A5", "M"] + stop +
+                ["L101", "M", "R5:1:-", "A5", "R6:1:-", "A6", "A5", "R5:1:-", "A5", "M",
+                 "R9:1:101", "A9", "A9", "R5:1:-", "R6:1:-", "R10:1:-", "A10", "A10", "M", "K",
+                 "L102", "R10:1:-", "A10", "R9:1:-", "A9", "R11:1:102", "A11", "R12:1:-", "A12", "M"],
+                f"respond:{stop[0]}")
+    # the challenge / the response crosses a chunk boundary: its store dies after every effect
+    for cr in crashes:
+        add(["L100", "R5:1:-", "A5", "K", "L101"] + P(9) + ["R5:1:-", "M"] + after("A5", cr) +
+            ["M", "L102", "M", "R5:1:-", "A5", "M"], "respond-boundary")
+        add(["L100"] + P(10) + ["R5:1:-", "A5", "M"] + after("A5", cr) + ["M", "L101", "R5:1:-", "A5", "M"],
+            "respond-boundary")
+    # answering without any request identifiers, before a load, and at exhaustion
+    add(["A5", "L100", "A5", "R5:0:-", "A5", "R5:1:-", "R5:1:-", "A5", "A5", "M", "S", "A5", "L101", "A5", "M"],
+        "respond-misc")
+    for k in (0, 1):
+        add(["L100", "R5:1:-", "K", "L101", "R5:1:-", "M", "A5", "A5", "A5", "M", "R9:1:101", "A9", "M"],
+            "respond-exhaustion", disk=f"{MAXSEQ - k}:0:0")
     # exhaustion
     for k in range(0, 13):
         for rec in ("u", "0:0"):
@@ -513,6 +635,15 @@ def random_case(rng, malformed):
             e = rng.random()
             echo = str(100 + life) if e < 0.3 else (str(100 + life - 1) if e < 0.4 else "-")
             ev.append(f"R{seq}:{auth}:{echo}" + crash)
+            if not crash and rng.random() < 0.45:
+                # the server answers (a response, or the Echo challenge if that is what the request got); sometimes
+                # twice (a notification), sometimes an older request, rarely with a crash inside
+                for _ in range(rng.choice([1, 1, 2])):
+                    target = seq if (not accepted or rng.random() < 0.8) else rng.choice(accepted)
+                    ev.append(f"A{target}" + ("!%d" % rng.randrange(0, 6) if rng.random() < 0.05 else ""))
+                    if "!" in ev[-1]:
+                        crash = "!"
+                        break
             if auth:
                 accepted.append(seq)
                 top = max(top, seq)
@@ -571,7 +702,9 @@ def run(env, rep):
         for o in log:
             rep.count("ev=" + o["ev"])
             r = o["res"]
-            rep.count("res=" + ("issued" if r.startswith("i") else r))
+            rep.count("res=" + ("issued" if r.startswith("i") else "reused" if r.startswith("r") else r))
+            if o["ev"] == "A" and o.get("answers") is not None:
+                rep.count("respond=" + ("own-number" if r.startswith("i") else "reused-nonce" if r.startswith("r") else r))
             if o.get("effects"):
                 rep.count("effects=" + ",".join(o["effects"]) + ("" if r != "d" else " (died)"))
         verdict, key = oracle(log)
@@ -583,8 +716,11 @@ def run(env, rep):
     for line in outs:
         for t in line.split():
             t = t.split("@")[0]
-            rep.count("model=" + ("issued" if t[0] == "i" else "m" if t[0] == "m" else t))
-    need = ["issued", "x", "As", "Ae", "E", "R", "P", "d", "k", "s", "z", "-", "a", "l", "m"]
+            for u in t.split("~")[1:]:
+                rep.count("model-nonce=" + u[0])
+            t = t.split("~")[0]
+            rep.count("model=" + ("issued" if t[0] == "i" else "m" if t[0] == "m" else "reused" if t[0] == "r" else t))
+    need = ["issued", "x", "As", "Ae", "E", "R", "P", "d", "k", "s", "z", "-", "a", "l", "m", "reused"]
     missing = [k for k in need if not rep.hist.get("model=" + k)]
     if missing:
         raise HarnessError("generator did not reach model outcomes: " + ",".join(missing))
